@@ -1,9 +1,9 @@
-(* Iterator engine, proofs (all inputs, no size bound):
-     ci_run_exact : outside the input classes D12 / D13 the model of the ComponentIterator script yields
-                    exactly the specified event list;
+(* Iterator engine, proofs (all inputs, no size bound), for the code after the repair of D12 / D13:
+     ci_run_exact : the model of the ComponentIterator script yields exactly the specified event list;
      mi_is_ci     : the ModuleIterator model is the ComponentIterator model on a one-module component;
-     mi_run_exact : hence the same for the ModuleIterator outside D12;
-     checker soundness for C25 / C26 and vm_compute refutations for every shape of D12 / D13. *)
+     mi_run_exact : hence the same for the ModuleIterator;
+     ci_run_as_module_runs : the component traversal is the concatenation of the module traversals;
+     checker soundness for C25 / C26; the inputs that used to refute the properties, now positive. *)
 From Coq Require Import List NArith Bool Lia Arith.
 Import ListNotations.
 From Orca Require Import Util Iter CheckIter.
@@ -34,12 +34,6 @@ Proof.
   - intros H. injection H as -> ->. rewrite andb_true_iff. split; [apply ev_eqb_eq|apply IH]; reflexivity.
 Qed.
 
-Lemma nlist_eqb_eq : forall a b, nlist_eqb a b = true -> a = b.
-Proof.
-  induction a as [|x a IH]; destruct b as [|y b]; cbn [nlist_eqb]; try discriminate; try reflexivity.
-  rewrite andb_true_iff. intros [H1 H2]. apply N.eqb_eq in H1. apply IH in H2. subst. reflexivity.
-Qed.
-
 Lemma skipn_cons_inv : forall {A} i (l : list A) x r,
   skipn i l = x :: r -> nth_error l i = Some x /\ skipn (S i) l = r /\ length l = (i + S (length r))%nat.
 Proof.
@@ -58,13 +52,8 @@ Lemma skipn_hd_nth : forall {A} n (l : list A) d, hd d (skipn n l) = nth n l d.
 Proof. induction n; destruct l; cbn; auto. Qed.
 Lemma skipn_tl : forall {A} n (l : list A), tl (skipn n l) = skipn (S n) l.
 Proof. induction n; destruct l; cbn [skipn tl]; auto. rewrite IHn. reflexivity. Qed.
-Lemma skipn_last : forall {A} n (l : list A) x r d, skipn n l = x :: r -> last l d = last (x :: r) d.
-Proof.
-  induction n as [|n IH]; intros l x r d H.
-  - cbn in H. subst. reflexivity.
-  - destruct l as [|a l]; [discriminate|]. cbn [skipn] in H. rewrite <- (IH _ _ _ d H).
-    destruct l; [destruct n; discriminate|reflexivity].
-Qed.
+Lemma nth_of_skipn : forall {A} i (l : list A) x r d, skipn i l = x :: r -> nth i l d = x.
+Proof. intros * H. apply nth_error_nth. apply skipn_cons_inv in H. tauto. Qed.
 
 (* ------------------------------------------------------------------------------------------ *)
 (* skipping *)
@@ -75,13 +64,16 @@ Fixpoint drop_skipped (skip : list N) (l : meta) : meta :=
   | (f, n) :: l' => if memN f skip then drop_skipped skip l' else l
   end.
 
-Lemma skip_from_spec : forall skip l idx (mt : meta),
-  skipn idx mt = l -> skipn (skip_from skip l idx) mt = drop_skipped skip l.
+Lemma find_unskipped_spec : forall skip l idx (mt : meta), skipn idx mt = l ->
+  match find_unskipped skip l idx with
+  | Some i => exists f n r, drop_skipped skip l = (f, n) :: r /\ skipn i mt = (f, n) :: r
+  | None => drop_skipped skip l = []
+  end.
 Proof.
-  induction l as [|[f n] l IH]; intros idx mt H; cbn [skip_from drop_skipped].
-  - exact H.
-  - destruct (memN f skip); [|exact H].
-    apply IH. apply skipn_cons_inv in H. tauto.
+  induction l as [|[f n] l IH]; intros idx mt H; cbn [find_unskipped drop_skipped]; [reflexivity|].
+  destruct (memN f skip).
+  - apply IH. apply skipn_cons_inv in H. tauto.
+  - exists f, n, l. auto.
 Qed.
 
 Lemma drop_skipped_head : forall skip l f n r, drop_skipped skip l = (f, n) :: r ->
@@ -106,23 +98,6 @@ Proof.
 Qed.
 Lemma expected_all_skipped : forall m skip l, drop_skipped skip l = [] -> expected_mod m l skip = [].
 Proof. intros. rewrite expected_drop, H. reflexivity. Qed.
-
-Lemma drop_skipped_find : forall skip l,
-  find (fun fn => negb (skipped skip (fst fn))) l = hd_error (drop_skipped skip l).
-Proof.
-  induction l as [|[f n] l IH]; cbn [find drop_skipped fst]; [reflexivity|].
-  rewrite <- memN_skipped. destruct (memN f skip); cbn [negb]; [exact IH|reflexivity].
-Qed.
-
-Lemma drop_skipped_nil_last : forall skip l, l <> [] -> drop_skipped skip l = [] ->
-  skipped skip (fst (last l (0, 0))) = true.
-Proof.
-  induction l as [|[f n] l IH]; intros Hne H; [congruence|].
-  cbn [drop_skipped] in H. destruct (memN f skip) eqn:E; [|discriminate].
-  destruct l as [|b l].
-  - cbn [last fst]. rewrite <- memN_skipped. exact E.
-  - change (last ((f, n) :: b :: l) (0, 0)) with (last (b :: l) (0, 0)). apply IH; [discriminate|exact H].
-Qed.
 
 (* ------------------------------------------------------------------------------------------ *)
 (* the specification: shape of one function's visits *)
@@ -246,89 +221,78 @@ Lemma f_has_next_false : forall c n, n <= c + 1 -> f_has_next (mkF c n) = false.
 Proof. intros. unfold f_has_next. prj. apply N.ltb_ge. assumption. Qed.
 
 Lemma m_next_in : forall idx mt c n skip, c + 1 < n ->
-  m_next (mkM idx mt (mkF c n) skip) = Ok (mkM idx mt (mkF (c + 1) n) skip, true).
+  m_next (mkM idx mt (mkF c n) skip) = (mkM idx mt (mkF (c + 1) n) skip, true).
 Proof.
   intros. unfold m_next, f_next. prj. rewrite (f_has_next_true _ _ H). prj. reflexivity.
 Qed.
 
-(* next() on the last instruction of a function *)
-Lemma m_next_fend : forall idx mt c n skip fn post, skipn idx mt = fn :: post -> n <= c + 1 ->
-  m_next (mkM idx mt (mkF c n) skip) =
-  match post with
-  | [] => Ok (mkM idx mt (mkF c n) skip, false)
-  | _ => match drop_skipped skip post with
-         | (_, n') :: _ => Ok (mkM (skip_from skip post (S idx)) mt (mkF 0 n') skip, true)
-         | [] => Ok (mkM (skip_from skip post (S idx)) mt (mkF c n) skip, false)
-         end
-  end.
+(* next() on the last instruction of a function: only skipped functions follow -- the cursor stays *)
+Lemma m_next_fend_none : forall idx mt c n skip fn post, skipn idx mt = fn :: post -> n <= c + 1 ->
+  drop_skipped skip post = [] ->
+  m_next (mkM idx mt (mkF c n) skip) = (mkM idx mt (mkF c n) skip, false).
 Proof.
-  intros * Hs Hc. unfold m_next. prj. rewrite (f_has_next_false _ _ Hc).
-  destruct (skipn_cons_inv _ _ _ _ Hs) as (Hn & Hs' & Hl).
-  unfold m_next_function, m_has_next_function. prj.
-  destruct post as [|p post'].
-  - assert (Nat.ltb (S idx) (length mt) = false) as -> by (apply Nat.ltb_ge; cbn [length] in Hl; lia). reflexivity.
-  - assert (Nat.ltb (S idx) (length mt) = true) as -> by (apply Nat.ltb_lt; cbn [length] in Hl; lia). cbn [negb].
-    unfold handle_skips. prj. rewrite Hs'. prj.
-    pose proof (skip_from_spec skip (p :: post') (S idx) mt Hs') as Hd.
-    set (idx' := skip_from skip (p :: post') (S idx)) in *.
-    destruct (drop_skipped skip (p :: post')) as [|[f' n'] r] eqn:Ed.
-    + apply skipn_nil_inv in Hd.
-      assert (Nat.ltb idx' (length mt) = false) as -> by (apply Nat.ltb_ge; lia). reflexivity.
-    + destruct (skipn_cons_inv _ _ _ _ Hd) as (Hn' & _ & Hl').
-      assert (Nat.ltb idx' (length mt) = true) as -> by (apply Nat.ltb_lt; lia).
-      unfold get_curr_func. prj. rewrite Hn'. reflexivity.
+  intros * Hs Hc Ed. unfold m_next. prj. rewrite (f_has_next_false _ _ Hc).
+  destruct (skipn_cons_inv _ _ _ _ Hs) as (_ & Hs' & _).
+  unfold m_next_function, next_unskipped. prj. rewrite Hs'.
+  pose proof (find_unskipped_spec skip post (S idx) mt Hs') as Hf.
+  destruct (find_unskipped skip post (S idx)); [|reflexivity].
+  destruct Hf as (f & n' & r & Hd & _). congruence.
+Qed.
+(* ... an unskipped function follows: the cursor moves to its first instruction *)
+Lemma m_next_fend_some : forall idx mt c n skip fn post f' n' post'', skipn idx mt = fn :: post -> n <= c + 1 ->
+  drop_skipped skip post = (f', n') :: post'' ->
+  exists idx', skipn idx' mt = (f', n') :: post''
+               /\ m_next (mkM idx mt (mkF c n) skip) = (mkM idx' mt (mkF 0 n') skip, true).
+Proof.
+  intros * Hs Hc Ed. unfold m_next. prj. rewrite (f_has_next_false _ _ Hc).
+  destruct (skipn_cons_inv _ _ _ _ Hs) as (_ & Hs' & _).
+  unfold m_next_function, next_unskipped. prj. rewrite Hs'.
+  pose proof (find_unskipped_spec skip post (S idx) mt Hs') as Hf.
+  destruct (find_unskipped skip post (S idx)) as [i|]; [|congruence].
+  destruct Hf as (f & n0 & r & Hd & Hsk). rewrite Ed in Hd. injection Hd; intros; subst.
+  exists i. split; [exact Hsk|]. unfold get_curr_func, f_new. prj. rewrite (nth_of_skipn _ _ _ _ _ Hsk). reflexivity.
 Qed.
 
-Lemma m_has_next_fend : forall idx mt c n skip fn post, skipn idx mt = fn :: post -> n <= c + 1 ->
-  m_has_next (mkM idx mt (mkF c n) skip) = negb (nilb post).
+(* new(): on the first unskipped function, with that function's length; or empty *)
+Lemma m_new_nonempty : forall mt skip f n post, drop_skipped skip mt = (f, n) :: post ->
+  exists idx, skipn idx mt = (f, n) :: post /\ m_new mt skip = mkM idx mt (mkF 0 n) skip.
 Proof.
-  intros * Hs Hc. unfold m_has_next, m_has_next_function. prj. rewrite (f_has_next_false _ _ Hc). cbn [orb].
-  destruct (skipn_cons_inv _ _ _ _ Hs) as (_ & _ & Hl). rewrite Hl.
-  destruct post; cbn [nilb negb length]; [apply Nat.ltb_ge|apply Nat.ltb_lt]; lia.
+  intros * Ed. unfold m_new, m_reset, next_unskipped. prj. cbn [skipn].
+  pose proof (find_unskipped_spec skip mt 0 mt eq_refl) as Hf.
+  destruct (find_unskipped skip mt 0) as [i|]; [|congruence].
+  destruct Hf as (f0 & n0 & r & Hd & Hsk). rewrite Ed in Hd. injection Hd; intros; subst.
+  exists i. split; [exact Hsk|]. unfold get_curr_func. prj. rewrite (nth_of_skipn _ _ _ _ _ Hsk). reflexivity.
+Qed.
+Lemma m_new_empty : forall mt skip, drop_skipped skip mt = [] ->
+  m_new mt skip = mkM (length mt) mt (mkF 0 0) skip.
+Proof.
+  intros * Ed. unfold m_new, m_reset, next_unskipped. prj. cbn [skipn].
+  pose proof (find_unskipped_spec skip mt 0 mt eq_refl) as Hf.
+  destruct (find_unskipped skip mt 0) as [i|].
+  - destruct Hf as (f0 & n0 & r & Hd & _). congruence.
+  - unfold get_curr_func. prj. rewrite nth_overflow by lia. reflexivity.
 Qed.
 
-(* new() outside D12: the cursor is on the first unskipped function, with that function's length *)
-Lemma m_new_ok : forall mt skip, d12_mod mt skip = false ->
-  exists idx f n post, m_new mt skip = Ok (mkM idx mt (mkF 0 n) skip)
-                       /\ skipn idx mt = (f, n) :: post /\ drop_skipped skip mt = (f, n) :: post.
-Proof.
-  intros mt skip H. unfold d12_mod in H. destruct mt as [|[f0 n0] mt']; [discriminate|].
-  rewrite drop_skipped_find in H.
-  destruct (drop_skipped skip ((f0, n0) :: mt')) as [|[f n] post] eqn:Ed; cbn [hd_error] in H; [discriminate|].
-  apply negb_false_iff, N.eqb_eq in H. subst n0.
-  exists (skip_from skip ((f0, n) :: mt') 0), f, n, post.
-  pose proof (skip_from_spec skip ((f0, n) :: mt') 0 ((f0, n) :: mt') eq_refl) as Hd. rewrite Ed in Hd.
-  split; [|split; [exact Hd|reflexivity]].
-  unfold m_new, handle_skips, f_new. prj. cbn [skipn]. reflexivity.
-Qed.
+Lemma m_reset_is_new : forall s, m_reset s = m_new (m_meta s) (m_skip s).
+Proof. intros [idx mt fi skip]. reflexivity. Qed.
 
-(* reset() outside D12 gives the state new() gives *)
-Lemma m_reset_new : forall i mt fi skip, d12_mod mt skip = false ->
-  m_reset (mkM i mt fi skip) = m_new mt skip.
-Proof.
-  intros i mt fi skip H. destruct (m_new_ok _ _ H) as (idx & f & n & post & Hn & Hs & Hd). rewrite Hn.
-  unfold m_new in Hn. destruct mt as [|[f0 n0] mt']; [discriminate|].
-  unfold m_reset, handle_skips in *. prj. cbn [skipn] in *.
-  remember (skip_from skip ((f0, n0) :: mt') 0) as j eqn:Ej.
-  assert (j = idx) as -> by congruence.
-  unfold get_curr_func. prj. destruct (skipn_cons_inv _ _ _ _ Hs) as (Hnth & _ & _). rewrite Hnth. reflexivity.
-Qed.
-
-Lemma m_next_keeps : forall s s' b, m_next s = Ok (s', b) -> m_meta s' = m_meta s /\ m_skip s' = m_skip s.
+Lemma m_next_keeps : forall s s' b, m_next s = (s', b) -> m_meta s' = m_meta s /\ m_skip s' = m_skip s.
 Proof.
   intros s s' b H. unfold m_next in H. destruct (f_has_next (m_fi s)).
   - destruct (f_next (m_fi s)). injection H; intros; subst. prj. auto.
-  - unfold m_next_function in H. destruct (negb (m_has_next_function s)); [injection H; intros; subst; auto|].
-    unfold handle_skips in H. prj. destruct (skipn (S (m_idx s)) (m_meta s)); [discriminate|].
-    match type of H with context [Nat.ltb ?a ?b] => destruct (Nat.ltb a b) end.
-    + unfold get_curr_func in H. prj. match type of H with context [nth_error ?a ?b] => destruct (nth_error a b) as [[? ?]|] end;
-        [|discriminate]. injection H; intros; subst. prj. auto.
-    + injection H; intros; subst. prj. auto.
+  - unfold m_next_function in H. destruct (next_unskipped s (S (m_idx s))); injection H; intros; subst; prj; auto.
 Qed.
-Lemma m_new_keeps : forall mt skip s, m_new mt skip = Ok s -> m_meta s = mt /\ m_skip s = skip.
+
+Lemma m_next_nonempty : forall s s' b, m_is_empty s = false -> m_next s = (s', b) -> m_is_empty s' = false.
 Proof.
-  intros mt skip s H. unfold m_new in H. destruct mt as [|[f0 n0] mt']; [discriminate|].
-  unfold handle_skips in H. prj. cbn [skipn] in H. injection H; intros; subst. prj. auto.
+  intros s s' b He H. unfold m_next in H. destruct (f_has_next (m_fi s)).
+  - destruct (f_next (m_fi s)). injection H; intros; subst. exact He.
+  - unfold m_next_function, next_unskipped in H.
+    pose proof (find_unskipped_spec (m_skip s) _ (S (m_idx s)) (m_meta s) eq_refl) as Hf.
+    destruct (find_unskipped (m_skip s) (skipn (S (m_idx s)) (m_meta s)) (S (m_idx s))) as [i|];
+      injection H; intros; subst; [|exact He].
+    destruct Hf as (f & n & r & _ & Hsk). apply skipn_cons_inv in Hsk. destruct Hsk as (_ & _ & Hl).
+    unfold m_is_empty. prj. apply Nat.leb_gt. lia.
 Qed.
 
 Lemma wf_meta_nth : forall mt i f n, wf_meta mt = true -> nth_error mt i = Some (f, n) -> 1 <= n.
@@ -340,6 +304,36 @@ Qed.
 Lemma wf_meta_asc : forall mt, wf_meta mt = true -> ascending (map fst mt) = true.
 Proof. intros mt H. unfold wf_meta in H. apply andb_true_iff in H. tauto. Qed.
 
+(* what no step of the component cursor changes *)
+Definition sig3 (c : csub) := (c_metas c, c_skips c, c_num c).
+Lemma c_next_module_sig : forall c c' b, c_next_module c = (c', b) -> sig3 c' = sig3 c.
+Proof.
+  intros c c' b H. unfold c_next_module in H. destruct (Nat.leb (c_num c) (c_mod c)); [injection H; intros; subst; reflexivity|].
+  destruct (Nat.ltb (S (c_mod c)) (c_num c)); injection H; intros; subst; reflexivity.
+Qed.
+Lemma c_skip_empty_go_sig : forall fuel c c' b, c_skip_empty_go fuel c = (c', b) -> sig3 c' = sig3 c.
+Proof.
+  induction fuel as [|fuel IH]; intros c c' b H; cbn [c_skip_empty_go] in H; [injection H; intros; subst; reflexivity|].
+  destruct (m_is_empty (c_it c)); [|injection H; intros; subst; reflexivity].
+  destruct (c_next_module c) as [c1 b1] eqn:En. apply c_next_module_sig in En. destruct b1.
+  - rewrite (IH _ _ _ H). exact En.
+  - injection H; intros; subst. exact En.
+Qed.
+Lemma c_next_sig : forall c c' b, c_next c = (c', b) -> sig3 c' = sig3 c.
+Proof.
+  intros c c' b H. unfold c_next in H. destruct (m_next (c_it c)) as [it b0]. destruct b0; [injection H; intros; subst; reflexivity|].
+  match type of H with context [c_next_module ?x] => destruct (c_next_module x) as [c1 b1] eqn:En end.
+  apply c_next_module_sig in En. destruct b1.
+  - unfold c_skip_empty in H. rewrite (c_skip_empty_go_sig _ _ _ _ H). exact En.
+  - injection H; intros; subst. exact En.
+Qed.
+Lemma ci_next_sig : forall c c' b, ci_next c = Ok (c', b) -> sig3 c' = sig3 c.
+Proof.
+  intros c c' b H. unfold ci_next in H. destruct (c_next c) as [c1 b1] eqn:En. apply c_next_sig in En. destruct b1.
+  - destruct (ci_curr_op c1); [|discriminate]. injection H; intros; subst. exact En.
+  - injection H; intros; subst. exact En.
+Qed.
+
 (* ------------------------------------------------------------------------------------------ *)
 (* the ComponentIterator on a fixed component *)
 
@@ -349,17 +343,21 @@ Section Comp.
 
   Definition cst (cm idx : nat) (mt : meta) (c n : N) (skip : list N) : csub :=
     mkC cm (length metas) (mkM idx mt (mkF c n) skip) metas skips.
+  (* the state on entering module cm *)
+  Definition cent (cm : nat) : csub :=
+    mkC cm (length metas) (m_new (nth cm metas []) (nth cm skips [])) metas skips.
+  Definition Inv (s : csub) : Prop := sig3 s = (metas, skips, length metas).
 
   Lemma ci_op_loc : forall cm idx mt c n skip f post,
     nth_error metas cm = Some mt -> ascending (map fst mt) = true -> skipn idx mt = (f, n) :: post -> c < n ->
     ci_curr_op (cst cm idx mt c n skip) = Ok true
-    /\ c_curr_loc (cst cm idx mt c n skip) = Ok (N.of_nat cm, f, c, n <=? c + 1).
+    /\ c_curr_loc (cst cm idx mt c n skip) = (N.of_nat cm, f, c, n <=? c + 1).
   Proof.
     intros * Hm Ha Hs Hc.
     assert (cm < length metas)%nat as Hlt by (apply nth_error_Some; congruence).
     destruct (skipn_cons_inv _ _ _ _ Hs) as (Hn & _ & _).
-    assert (c_curr_loc (cst cm idx mt c n skip) = Ok (N.of_nat cm, f, c, n <=? c + 1)) as Hloc.
-    { unfold c_curr_loc, m_curr_loc, get_curr_func, cst, f_is_end. prj. rewrite Hn. reflexivity. }
+    assert (c_curr_loc (cst cm idx mt c n skip) = (N.of_nat cm, f, c, n <=? c + 1)) as Hloc.
+    { unfold c_curr_loc, m_curr_loc, get_curr_func, cst, f_is_end. prj. rewrite (nth_of_skipn _ _ _ _ _ Hs). reflexivity. }
     split; [|exact Hloc].
     unfold ci_curr_op. rewrite Hloc. unfold c_end, cst. prj.
     assert (Nat.eqb cm (length metas) = false) as -> by (apply Nat.eqb_neq; lia).
@@ -371,9 +369,7 @@ Section Comp.
     nth_error metas cm = Some mt -> ascending (map fst mt) = true -> skipn idx mt = (f, n) :: post -> c + 1 < n ->
     ci_next (cst cm idx mt c n skip) = Ok (cst cm idx mt (c + 1) n skip, true).
   Proof.
-    intros * Hm Ha Hs Hc. unfold ci_next, c_next, cst. prj.
-    unfold m_has_next. prj. rewrite (f_has_next_true _ _ Hc). cbn [orb].
-    rewrite (m_next_in _ _ _ _ _ Hc).
+    intros * Hm Ha Hs Hc. unfold ci_next, c_next, cst. prj. rewrite (m_next_in _ _ _ _ _ Hc).
     change (mkC cm (length metas) (mkM idx mt (mkF (c + 1) n) skip) metas skips) with (cst cm idx mt (c + 1) n skip).
     destruct (ci_op_loc cm idx mt (c + 1) n skip f post Hm Ha Hs Hc) as [-> _]. reflexivity.
   Qed.
@@ -391,7 +387,7 @@ Section Comp.
     - assert (c + 1 < n) as Hc1 by lia.
       destruct (ci_op_loc cm idx mt c n skip f post Hm Ha Hs ltac:(lia)) as [Hop Hloc].
       change (S d + fuel)%nat with (S (d + fuel)).
-      rewrite (walk_more CI (d + fuel) _ _ _ Hop Hloc (ci_next_in _ _ _ _ _ _ _ _ Hm Ha Hs Hc1)).
+      rewrite (walk_more CI (d + fuel) _ _ _ Hop (f_equal Ok Hloc) (ci_next_in _ _ _ _ _ _ _ _ Hm Ha Hs Hc1)).
       rewrite IH by lia. cbn [fst snd ev_of pre app].
       assert (n <=? c + 1 = false) as -> by (apply N.leb_gt; lia).
       replace (c + 1 + N.of_nat d) with (c + N.of_nat (S d)) by lia. reflexivity.
@@ -405,63 +401,13 @@ Section Comp.
                  /\ ci_next (cst cm idx mt c n skip) = Ok (cst cm idx' mt 0 n' skip, true).
   Proof.
     intros * Hm Hwf Hs Hc Ed.
-    destruct (skipn_cons_inv _ _ _ _ Hs) as (_ & Hs' & _).
-    pose proof (skip_from_spec skip post (S idx) mt Hs') as Hd. rewrite Ed in Hd.
-    exists (skip_from skip post (S idx)). split; [exact Hd|].
-    unfold ci_next, c_next, cst. prj.
-    rewrite (m_has_next_fend _ _ _ _ _ _ _ Hs Hc), (m_next_fend _ _ _ _ _ _ _ Hs Hc).
-    destruct post as [|p post']; [discriminate|]. cbn [nilb negb]. rewrite Ed.
-    change (mkC cm (length metas) (mkM (skip_from skip (p :: post') (S idx)) mt (mkF 0 n') skip) metas skips)
-      with (cst cm (skip_from skip (p :: post') (S idx)) mt 0 n' skip).
+    destruct (m_next_fend_some _ _ _ _ skip _ _ _ _ _ Hs Hc Ed) as (idx' & Hd & Hnext).
+    exists idx'. split; [exact Hd|].
+    unfold ci_next, c_next, cst. prj. rewrite Hnext.
+    change (mkC cm (length metas) (mkM idx' mt (mkF 0 n') skip) metas skips) with (cst cm idx' mt 0 n' skip).
     destruct (skipn_cons_inv _ _ _ _ Hd) as (Hn' & _ & _).
     pose proof (wf_meta_nth _ _ _ _ Hwf Hn') as H1.
-    destruct (ci_op_loc cm _ mt 0 n' skip f' post'' Hm (wf_meta_asc _ Hwf) Hd ltac:(lia)) as [-> _]. reflexivity.
-  Qed.
-
-  (* ... followed only by skipped functions: next() returns false although the module cursor had "more" *)
-  Lemma ci_next_tailskip : forall cm idx mt c n skip fn post,
-    skipn idx mt = fn :: post -> n <= c + 1 -> post <> [] -> drop_skipped skip post = [] ->
-    ci_next (cst cm idx mt c n skip)
-    = Ok (mkC cm (length metas) (mkM (skip_from skip post (S idx)) mt (mkF c n) skip) metas skips, false).
-  Proof.
-    intros * Hs Hc Hne Ed. unfold ci_next, c_next, cst. prj.
-    rewrite (m_has_next_fend _ _ _ _ _ _ _ Hs Hc), (m_next_fend _ _ _ _ _ _ _ Hs Hc).
-    destruct post as [|p post']; [congruence|]. cbn [nilb negb]. rewrite Ed. reflexivity.
-  Qed.
-
-  (* ... that is the last function of the last module *)
-  Lemma ci_next_last : forall cm idx mt c n skip fn,
-    skipn idx mt = [fn] -> n <= c + 1 -> length metas = S cm ->
-    ci_next (cst cm idx mt c n skip)
-    = Ok (mkC (S cm) (length metas) (mkM idx mt (mkF c n) skip) metas skips, false).
-  Proof.
-    intros * Hs Hc Hl. unfold ci_next, c_next, cst. prj.
-    rewrite (m_has_next_fend _ _ _ _ _ _ _ Hs Hc). cbn [nilb negb].
-    unfold c_next_module. prj.
-    assert (Nat.ltb (S cm) (length metas) = false) as -> by (apply Nat.ltb_ge; lia). reflexivity.
-  Qed.
-
-  (* ... that is the last function of a module followed by a module outside D12 *)
-  Lemma ci_next_module : forall cm idx mt c n skip fn mt',
-    skipn idx mt = [fn] -> n <= c + 1 -> nth_error metas (S cm) = Some mt' -> wf_meta mt' = true ->
-    d12_mod mt' (nth (S cm) skips []) = false ->
-    exists it', m_new mt' (nth (S cm) skips []) = Ok it'
-                /\ ci_next (cst cm idx mt c n skip) = Ok (mkC (S cm) (length metas) it' metas skips, true).
-  Proof.
-    intros * Hs Hc Hm' Hwf Hd.
-    destruct (m_new_ok _ _ Hd) as (idx' & f' & n' & post' & Hnew & Hs' & _).
-    eexists. split; [exact Hnew|].
-    unfold ci_next, c_next, cst. prj.
-    rewrite (m_has_next_fend _ _ _ _ _ _ _ Hs Hc). cbn [nilb negb].
-    unfold c_next_module. prj.
-    assert (S cm < length metas)%nat as Hlt by (apply nth_error_Some; congruence).
-    assert (Nat.ltb (S cm) (length metas) = true) as -> by (apply Nat.ltb_lt; exact Hlt).
-    rewrite Hm', Hnew.
-    change (mkC (S cm) (length metas) (mkM idx' mt' (mkF 0 n') (nth (S cm) skips [])) metas skips)
-      with (cst (S cm) idx' mt' 0 n' (nth (S cm) skips [])).
-    destruct (skipn_cons_inv _ _ _ _ Hs') as (Hn' & _ & _).
-    pose proof (wf_meta_nth _ _ _ _ Hwf Hn') as H1.
-    destruct (ci_op_loc (S cm) idx' mt' 0 n' (nth (S cm) skips []) f' post' Hm' (wf_meta_asc _ Hwf) Hs' ltac:(lia)) as [-> _]. reflexivity.
+    destruct (ci_op_loc cm idx' mt 0 n' skip f' post'' Hm (wf_meta_asc _ Hwf) Hd ltac:(lia)) as [-> _]. reflexivity.
   Qed.
 
   (* from the first instruction of an unskipped function to the last instruction of the module's last
@@ -512,140 +458,128 @@ Section Comp.
         rewrite (walk_pre cm idx mt n skip f post Hm Ha Hs (N.to_nat (n - 1)) 0 _) by lia.
         replace (0 + N.of_nat (N.to_nat (n - 1))) with (n - 1) by lia.
         destruct (ci_op_loc cm idx mt (n - 1) n skip f post Hm Ha Hs ltac:(lia)) as [Hop Hloc].
-        rewrite (walk_more CI _ _ _ _ Hop Hloc Hnext), Hwalk. cbn [fst snd ev_of].
+        rewrite (walk_more CI _ _ _ _ Hop (f_equal Ok Hloc) Hnext), Hwalk. cbn [fst snd ev_of].
         assert (n <=? n - 1 + 1 = true) as -> by (apply N.leb_le; lia).
         rewrite <- app_assoc. cbn [app]. reflexivity.
   Qed.
 
-  (* what next() preserves; enough to bring reset() back to the initial state *)
-  Definition Inv (s : csub) : Prop :=
-    c_metas s = metas /\ c_skips s = skips /\ c_num s = length metas
-    /\ exists j, (j < length metas)%nat /\ m_skip (c_it s) = nth j skips [].
-  (* the state in which a full traversal ends *)
-  Definition Fin (s : csub) : Prop :=
-    Inv s /\ (last_skipped (last metas []) (nth (pred (length metas)) skips []) = false -> exists v, c_curr_loc s = Ok v).
-
-  Lemma last_skipped_tail : forall mt skip idx fn p post, skipn idx mt = fn :: p :: post ->
-    drop_skipped skip (p :: post) = [] -> last_skipped mt skip = true.
-  Proof.
-    intros * Hs Ed. unfold last_skipped. destruct mt as [|a mt']; [destruct idx; discriminate|].
-    rewrite (skipn_last _ _ _ _ (0, 0) Hs).
-    change (last (fn :: p :: post) (0, 0)) with (last (p :: post) (0, 0)).
-    apply drop_skipped_nil_last; [discriminate|exact Ed].
-  Qed.
-
-  Lemma any_mod_cons : forall p mt r sk, any_mod p (mt :: r) sk = p mt (hd [] sk) || any_mod p r (tl sk).
-  Proof. reflexivity. Qed.
   Lemma expected_comp_from_cons : forall m mt r sk,
     expected_comp_from m (mt :: r) sk = expected_mod m mt (hd [] sk) ++ expected_comp_from (m + 1) r (tl sk).
   Proof. reflexivity. Qed.
 
-  Lemma walk_modules : forall rest cm mt, skipn cm metas = mt :: rest ->
-    any_mod d12_mod (mt :: rest) (skipn cm skips) = false ->
-    any_nonlast last_skipped (mt :: rest) (skipn cm skips) = false ->
-    forallb wf_meta (mt :: rest) = true ->
-    forall it, m_new mt (nth cm skips []) = Ok it ->
-    forall fuel, exists sf,
-      walk CI (length (expected_comp_from (N.of_nat cm) (mt :: rest) (skipn cm skips)) + fuel) None
-           (mkC cm (length metas) it metas skips)
-      = (expected_comp_from (N.of_nat cm) (mt :: rest) (skipn cm skips), WEnd sf) /\ Fin sf.
+  Lemma c_next_module_at : forall cm it, (cm < length metas)%nat ->
+    c_next_module (mkC cm (length metas) it metas skips)
+    = if Nat.ltb (S cm) (length metas) then (cent (S cm), true) else (mkC (S cm) (length metas) it metas skips, false).
   Proof.
-    induction rest as [|mt' rest IH]; intros cm mt Hsk Hd12 Hd13 Hwfs it Hnew fuel;
+    intros cm it Hlt. unfold c_next_module. prj.
+    assert (Nat.leb (length metas) cm = false) as -> by (apply Nat.leb_gt; exact Hlt).
+    destruct (Nat.ltb (S cm) (length metas)); reflexivity.
+  Qed.
+
+  (* Entering module cm and stepping over the modules that have nothing to visit; from the module the
+     cursor lands in, the traversal yields the specified events of all remaining modules. *)
+  Lemma walk_modules : forall rest cm mt, skipn cm metas = mt :: rest -> forallb wf_meta (mt :: rest) = true ->
+    forall fuel, (length rest < fuel)%nat ->
+    exists c1 b, c_skip_empty_go fuel (cent cm) = (c1, b) /\ Inv c1 /\
+      if b then ci_curr_op c1 = Ok true /\
+                forall fw, exists sf,
+                  walk CI (length (expected_comp_from (N.of_nat cm) (mt :: rest) (skipn cm skips)) + fw) None c1
+                  = (expected_comp_from (N.of_nat cm) (mt :: rest) (skipn cm skips), WEnd sf) /\ Inv sf
+      else expected_comp_from (N.of_nat cm) (mt :: rest) (skipn cm skips) = [] /\ c_end c1 = true.
+  Proof.
+    induction rest as [|mt' rest IH]; intros cm mt Hsk Hwfs fuel Hfuel;
       destruct (skipn_cons_inv _ _ _ _ Hsk) as (Hm & Hsk' & Hlen);
-      rewrite any_mod_cons, skipn_hd_nth, skipn_tl in Hd12; apply orb_false_iff in Hd12; destruct Hd12 as [Hd Hd12];
       cbn [forallb] in Hwfs; apply andb_true_iff in Hwfs; destruct Hwfs as [Hwf Hwfs];
-      destruct (m_new_ok _ _ Hd) as (idx & f & n & post & Hnew' & Hs & Hdrop);
-      rewrite Hnew in Hnew'; injection Hnew' as ->;
-      destruct (drop_skipped_head _ _ _ _ _ Hdrop) as [Hf _];
+      assert (cm < length metas)%nat as Hlt by lia;
+      (destruct fuel as [|fuel]; [lia|]);
+      rewrite expected_comp_from_cons, skipn_hd_nth, skipn_tl;
+      cbn [c_skip_empty_go];
+      assert (c_it (cent cm) = m_new mt (nth cm skips [])) as Hit by (unfold cent; prj; rewrite (nth_of_skipn _ _ _ _ _ Hsk); reflexivity);
+      rewrite Hit;
+      destruct (drop_skipped (nth cm skips []) mt) as [|[f n] post] eqn:Ed.
+    - (* last module, nothing to visit *)
+      rewrite (m_new_empty _ _ Ed). unfold m_is_empty. prj. rewrite Nat.leb_refl.
+      unfold cent at 1. rewrite (c_next_module_at cm _ Hlt).
+      assert (Nat.ltb (S cm) (length metas) = false) as -> by (apply Nat.ltb_ge; cbn [length] in Hlen; lia).
+      eexists. exists false. split; [reflexivity|]. split; [reflexivity|].
+      split; [rewrite (expected_all_skipped _ _ _ Ed); reflexivity|].
+      unfold c_end. prj. apply Nat.eqb_eq. cbn [length] in Hlen. lia.
+    - (* last module, something to visit *)
+      destruct (m_new_nonempty _ _ _ _ _ Ed) as (idx & Hs & Hnew). rewrite Hnew.
+      destruct (skipn_cons_inv _ _ _ _ Hs) as (Hn & _ & Hl).
+      unfold m_is_empty. prj. assert (Nat.leb (length mt) idx = false) as -> by (apply Nat.leb_gt; lia).
+      assert (cent cm = cst cm idx mt 0 n (nth cm skips [])) as Hc
+        by (unfold cent, cst; rewrite (nth_of_skipn _ _ _ _ _ Hsk), Hnew; reflexivity).
+      rewrite Hc. eexists. exists true. split; [reflexivity|]. split; [reflexivity|].
+      pose proof (wf_meta_nth _ _ _ _ Hwf Hn) as H1.
+      destruct (ci_op_loc cm idx mt 0 n (nth cm skips []) f post Hm (wf_meta_asc _ Hwf) Hs ltac:(lia)) as [Hop0 _].
+      split; [exact Hop0|]. intros fw.
+      destruct (drop_skipped_head _ _ _ _ _ Ed) as [Hf _].
       destruct (walk_funcs cm mt (nth cm skips []) Hm Hwf (length post) post (le_n _) idx f n Hs)
-        as (Epre & idx_l & f_l & n_l & post_l & Hsl & Edl & Hnl & Heq & Hwalk);
+        as (Epre & idx_l & f_l & n_l & post_l & Hsl & Edl & Hnl & Heq & Hwalk).
       assert (expected_mod (N.of_nat cm) mt (nth cm skips []) = Epre ++ [V (N.of_nat cm) f_l (n_l - 1) true true]) as HE
-        by (rewrite Heq, (expected_drop _ _ mt), Hdrop; apply expected_cons_unskipped; exact Hf);
-      destruct (ci_op_loc cm idx_l mt (n_l - 1) n_l (nth cm skips []) f_l post_l Hm (wf_meta_asc _ Hwf) Hsl ltac:(lia)) as [Hop Hloc];
-      assert (n_l <=? n_l - 1 + 1 = true) as Hend by (apply N.leb_le; lia);
-      rewrite expected_comp_from_cons, skipn_hd_nth, skipn_tl, HE;
-      change (mkC cm (length metas) (mkM idx mt (mkF 0 n) (nth cm skips [])) metas skips) with (cst cm idx mt 0 n (nth cm skips [])).
-    - (* the last module *)
-      cbn [expected_comp_from]. rewrite app_nil_r, app_length. cbn [length].
-      replace (length Epre + 1 + fuel)%nat with (length Epre + S fuel)%nat by lia. rewrite Hwalk.
-      cbn [length] in Hlen.
-      destruct post_l as [|p post_l'].
-      + eexists. rewrite (walk_end CI _ _ _ _ Hop Hloc (ci_next_last cm idx_l mt (n_l - 1) n_l _ _ Hsl ltac:(lia) ltac:(lia))).
-        cbn [fst snd ev_of]. rewrite Hend. split; [reflexivity|].
-        split; [repeat split; prj; try reflexivity; exists cm; split; [lia|reflexivity]|].
-        intros _. unfold c_curr_loc, m_curr_loc, get_curr_func. prj.
-        destruct (skipn_cons_inv _ _ _ _ Hsl) as (-> & _ & _). eexists. reflexivity.
-      + eexists. rewrite (walk_end CI _ _ _ _ Hop Hloc (ci_next_tailskip cm idx_l mt (n_l - 1) n_l _ _ _ Hsl ltac:(lia) ltac:(discriminate) Edl)).
-        cbn [fst snd ev_of]. rewrite Hend. split; [reflexivity|].
-        split; [repeat split; prj; try reflexivity; exists cm; split; [lia|reflexivity]|].
-        intros Hls. exfalso.
-        rewrite (@skipn_last meta cm metas mt [] [] Hsk) in Hls. cbn [last] in Hls.
-        replace (pred (length metas)) with cm in Hls by lia.
-        rewrite (last_skipped_tail _ _ _ _ _ _ Hsl Edl) in Hls. discriminate.
-    - (* a module followed by another one *)
-      change (any_nonlast last_skipped (mt :: mt' :: rest) (skipn cm skips))
-        with (last_skipped mt (hd [] (skipn cm skips)) || any_nonlast last_skipped (mt' :: rest) (tl (skipn cm skips))) in Hd13.
-      rewrite skipn_hd_nth, skipn_tl in Hd13. apply orb_false_iff in Hd13. destruct Hd13 as [Hls Hd13].
-      destruct post_l as [|p post_l'].
-      2:{ rewrite (last_skipped_tail _ _ _ _ _ _ Hsl Edl) in Hls. discriminate. }
-      destruct (skipn_cons_inv _ _ _ _ Hsk') as (Hm' & _ & _).
-      pose proof Hd12 as Hd12'. rewrite any_mod_cons, skipn_hd_nth in Hd12'. apply orb_false_iff in Hd12'.
-      pose proof Hwfs as Hwfs'. cbn [forallb] in Hwfs'. apply andb_true_iff in Hwfs'.
-      destruct (ci_next_module cm idx_l mt (n_l - 1) n_l (nth cm skips []) _ mt' Hsl ltac:(lia) Hm' (proj1 Hwfs') (proj1 Hd12'))
-        as (it' & Hnew2 & Hnext).
-      destruct (IH (S cm) mt' Hsk' Hd12 Hd13 Hwfs it' Hnew2 fuel) as (sf & Hw & Hfin).
-      exists sf. split; [|exact Hfin].
-      rewrite !app_length. cbn [length].
+        by (rewrite Heq, (expected_drop _ _ mt), Ed; apply expected_cons_unskipped; exact Hf).
+      destruct (ci_op_loc cm idx_l mt (n_l - 1) n_l (nth cm skips []) f_l post_l Hm (wf_meta_asc _ Hwf) Hsl ltac:(lia)) as [Hop Hloc].
+      assert (n_l <=? n_l - 1 + 1 = true) as Hend by (apply N.leb_le; lia).
+      rewrite HE. cbn [expected_comp_from]. rewrite app_nil_r, app_length. cbn [length].
+      replace (length Epre + 1 + fw)%nat with (length Epre + S fw)%nat by lia. rewrite Hwalk.
+      assert (ci_next (cst cm idx_l mt (n_l - 1) n_l (nth cm skips []))
+              = Ok (mkC (S cm) (length metas) (mkM idx_l mt (mkF (n_l - 1) n_l) (nth cm skips [])) metas skips, false)) as Hnext.
+      { unfold ci_next, c_next, cst. prj. rewrite (m_next_fend_none idx_l mt (n_l - 1) n_l (nth cm skips []) _ _ Hsl ltac:(lia) Edl).
+        rewrite (c_next_module_at cm _ Hlt).
+        assert (Nat.ltb (S cm) (length metas) = false) as -> by (apply Nat.ltb_ge; cbn [length] in Hlen; lia). reflexivity. }
+      eexists. rewrite (walk_end CI _ _ _ _ Hop (f_equal Ok Hloc) Hnext). cbn [fst snd ev_of]. rewrite Hend.
+      split; reflexivity.
+    - (* nothing to visit, another module follows *)
+      rewrite (m_new_empty _ _ Ed). unfold m_is_empty. prj. rewrite Nat.leb_refl.
+      unfold cent at 1. rewrite (c_next_module_at cm _ Hlt).
+      assert (Nat.ltb (S cm) (length metas) = true) as -> by (apply Nat.ltb_lt; cbn [length] in Hlen; lia).
+      destruct (IH (S cm) mt' Hsk' Hwfs fuel ltac:(cbn [length] in Hfuel; lia)) as (c1 & b & Hgo & HI & Hrest).
+      exists c1, b. split; [exact Hgo|]. split; [exact HI|].
+      rewrite (expected_all_skipped _ _ _ Ed). cbn [app].
+      replace (N.of_nat cm + 1) with (N.of_nat (S cm)) by lia. exact Hrest.
+    - (* something to visit, another module follows *)
+      destruct (m_new_nonempty _ _ _ _ _ Ed) as (idx & Hs & Hnew). rewrite Hnew.
+      destruct (skipn_cons_inv _ _ _ _ Hs) as (Hn & _ & Hl).
+      unfold m_is_empty. prj. assert (Nat.leb (length mt) idx = false) as -> by (apply Nat.leb_gt; lia).
+      assert (cent cm = cst cm idx mt 0 n (nth cm skips [])) as Hc
+        by (unfold cent, cst; rewrite (nth_of_skipn _ _ _ _ _ Hsk), Hnew; reflexivity).
+      rewrite Hc. eexists. exists true. split; [reflexivity|]. split; [reflexivity|].
+      pose proof (wf_meta_nth _ _ _ _ Hwf Hn) as H1.
+      destruct (ci_op_loc cm idx mt 0 n (nth cm skips []) f post Hm (wf_meta_asc _ Hwf) Hs ltac:(lia)) as [Hop0 _].
+      split; [exact Hop0|].
+      destruct (drop_skipped_head _ _ _ _ _ Ed) as [Hf _].
+      destruct (walk_funcs cm mt (nth cm skips []) Hm Hwf (length post) post (le_n _) idx f n Hs)
+        as (Epre & idx_l & f_l & n_l & post_l & Hsl & Edl & Hnl & Heq & Hwalk).
+      assert (expected_mod (N.of_nat cm) mt (nth cm skips []) = Epre ++ [V (N.of_nat cm) f_l (n_l - 1) true true]) as HE
+        by (rewrite Heq, (expected_drop _ _ mt), Ed; apply expected_cons_unskipped; exact Hf).
+      destruct (ci_op_loc cm idx_l mt (n_l - 1) n_l (nth cm skips []) f_l post_l Hm (wf_meta_asc _ Hwf) Hsl ltac:(lia)) as [Hop Hloc].
+      assert (n_l <=? n_l - 1 + 1 = true) as Hend by (apply N.leb_le; lia).
+      (* the step out of this module: next_module, then skip_empty_modules *)
+      destruct (IH (S cm) mt' Hsk' Hwfs (S (length metas - S cm)) ltac:(cbn [length] in Hlen; lia)) as (c1 & b & Hgo & HI & Hrest).
+      assert (c_next (cst cm idx_l mt (n_l - 1) n_l (nth cm skips [])) = (c1, b)) as Hcn.
+      { unfold c_next, cst. prj. rewrite (m_next_fend_none idx_l mt (n_l - 1) n_l (nth cm skips []) _ _ Hsl ltac:(lia) Edl).
+        rewrite (c_next_module_at cm _ Hlt).
+        assert (Nat.ltb (S cm) (length metas) = true) as -> by (apply Nat.ltb_lt; cbn [length] in Hlen; lia).
+        unfold c_skip_empty. unfold cent at 1 2. prj. fold (cent (S cm)). rewrite Hgo. destruct b; reflexivity. }
       replace (N.of_nat cm + 1) with (N.of_nat (S cm)) by lia.
       set (E2 := expected_comp_from (N.of_nat (S cm)) (mt' :: rest) (skipn (S cm) skips)) in *.
-      replace (length Epre + 1 + length E2 + fuel)%nat with (length Epre + S (length E2 + fuel))%nat by lia.
-      rewrite Hwalk, (walk_more CI _ _ _ _ Hop Hloc Hnext), Hw. cbn [fst snd ev_of]. rewrite Hend.
-      rewrite <- !app_assoc. cbn [app]. reflexivity.
-  Qed.
-
-  Lemma c_next_inv : forall s s' b, Inv s -> c_next s = Ok (s', b) -> Inv s'.
-  Proof.
-    intros s s' b (Hm & Hs & Hn & j & Hj & Hsk) H. unfold c_next in H.
-    destruct (m_has_next (c_it s)).
-    - destruct (m_next (c_it s)) as [[it b']|] eqn:En; [|discriminate]. injection H; intros; subst s' b'.
-      destruct (m_next_keeps _ _ _ En) as [_ Hk].
-      repeat split; prj; try assumption. exists j. rewrite Hk. auto.
-    - unfold c_next_module in H. destruct (Nat.ltb (S (c_mod s)) (c_num s)) eqn:El.
-      + destruct (nth_error (c_metas s) (S (c_mod s))) as [mt|]; [|discriminate].
-        destruct (m_new mt (nth (S (c_mod s)) (c_skips s) [])) as [it|] eqn:En; [|discriminate].
-        injection H; intros; subst s' b.
-        destruct (m_new_keeps _ _ _ En) as [_ Hk]. apply Nat.ltb_lt in El.
-        repeat split; prj; try assumption. exists (S (c_mod s)). rewrite Hk, Hs. split; [lia|reflexivity].
-      + injection H; intros; subst s' b. repeat split; prj; try assumption. exists j. auto.
-  Qed.
-  Lemma ci_next_inv : forall s s' b, Inv s -> ci_next s = Ok (s', b) -> Inv s'.
-  Proof.
-    intros s s' b HI H. unfold ci_next in H. destruct (c_next s) as [[c' [|]]|] eqn:En; try discriminate.
-    - destruct (ci_curr_op c'); [|discriminate]. injection H; intros; subst. eapply c_next_inv; eassumption.
-    - injection H; intros; subst. eapply c_next_inv; eassumption.
-  Qed.
-
-  Lemma all_same_nth : forall (h : list N) (l : list (list N)) j,
-    forallb (nlist_eqb h) l = true -> (j < length l)%nat -> nth j l [] = h.
-  Proof.
-    intros h l j H Hj. rewrite forallb_forall in H. symmetry. apply nlist_eqb_eq, H, nth_In, Hj.
-  Qed.
-
-  (* reset() from any state a traversal can be in, when all modules have the same skip list *)
-  Lemma c_reset_new : forall s mt0, Inv s -> nth_error metas 0 = Some mt0 ->
-    forallb (nlist_eqb (hd [] skips)) skips = true -> length skips = length metas ->
-    d12_mod mt0 (nth 0 skips []) = false ->
-    c_reset s = c_new metas skips.
-  Proof.
-    intros s mt0 (Hm & Hs & Hn & j & Hj & Hsk) H0 Hall Hlen Hd.
-    unfold c_reset, c_new, m_reset_from_comp. rewrite Hm, H0, Hs, Hn.
-    assert (m_skip (c_it s) = nth 0 skips []) as Hsk0.
-    { rewrite Hsk, (all_same_nth _ _ j Hall) by lia.
-      symmetry. apply all_same_nth; [exact Hall|]. assert (0 < length metas)%nat by (apply nth_error_Some; congruence). lia. }
-    rewrite Hsk0, (m_reset_new _ _ _ _ Hd). reflexivity.
+      intros fw. rewrite HE, !app_length. cbn [length].
+      replace (length Epre + 1 + length E2 + fw)%nat with (length Epre + S (length E2 + fw))%nat by lia.
+      rewrite Hwalk. destruct b.
+      + destruct Hrest as [Hop1 Hw]. destruct (Hw fw) as (sf & Hw' & HIf).
+        assert (ci_next (cst cm idx_l mt (n_l - 1) n_l (nth cm skips [])) = Ok (c1, true)) as Hnext
+          by (unfold ci_next; rewrite Hcn, Hop1; reflexivity).
+        exists sf. rewrite (walk_more CI _ _ _ _ Hop (f_equal Ok Hloc) Hnext), Hw'. cbn [fst snd ev_of]. rewrite Hend.
+        split; [|exact HIf]. rewrite <- !app_assoc. cbn [app]. reflexivity.
+      + destruct Hrest as [HE2 _].
+        assert (ci_next (cst cm idx_l mt (n_l - 1) n_l (nth cm skips [])) = Ok (c1, false)) as Hnext
+          by (unfold ci_next; rewrite Hcn; reflexivity).
+        exists c1. rewrite HE2. cbn [length Nat.add].
+        rewrite (walk_end CI _ _ _ _ Hop (f_equal Ok Hloc) Hnext). cbn [fst snd ev_of]. rewrite Hend, app_nil_r.
+        split; [reflexivity|exact HI].
   Qed.
 End Comp.
-
 (* the script never needs more fuel than [fuel_of_comp] *)
 Lemma instrs_length : forall m f n i, length (instrs m f n i) = n.
 Proof. induction n; intros; cbn [instrs length]; auto. Qed.
@@ -664,52 +598,59 @@ Proof.
 Qed.
 
 (* ------------------------------------------------------------------------------------------ *)
-(* C26, visiting half: outside D12 / D13 the ComponentIterator script yields exactly the specified events *)
+
+Lemma c_reset_is_new : forall metas skips s, Inv metas skips s -> c_reset s = c_new metas skips.
+Proof.
+  intros metas skips [cm num it ms sk] H. unfold Inv, sig3 in H. prj. injection H; intros; subst. reflexivity.
+Qed.
+Lemma ci_next_inv : forall metas skips s s' b, Inv metas skips s -> ci_next s = Ok (s', b) -> Inv metas skips s'.
+Proof. intros * HI H. unfold Inv. rewrite (ci_next_sig _ _ _ H). exact HI. Qed.
+
+(* one full traversal from the state new() gives *)
+Lemma top_walk : forall metas skips, forallb wf_meta metas = true ->
+  Inv metas skips (c_new metas skips) /\
+  exists sf, walk CI (fuel_of_comp metas) None (c_new metas skips) = (expected_comp metas skips, WEnd sf)
+             /\ Inv metas skips sf.
+Proof.
+  intros metas skips Hwf. destruct metas as [|mt0 rest].
+  - split; [reflexivity|]. exists (c_new [] skips). split; reflexivity.
+  - remember (mt0 :: rest) as metas eqn:Em.
+    assert (skipn 0 metas = mt0 :: rest) as Hsk by (rewrite Em; reflexivity).
+    pose proof Hwf as Hwf'. rewrite Em in Hwf'.
+    destruct (walk_modules metas skips rest 0 mt0 Hsk Hwf' (S (length metas - 0)) ltac:(rewrite Em; cbn [length]; lia))
+      as (c1 & b & Hgo & HI & Hrest).
+    change (c_new metas skips) with (fst (c_skip_empty_go (S (length metas - 0)) (cent metas skips 0))).
+    rewrite Hgo. cbn [fst]. split; [exact HI|].
+    cbn [skipn N.of_nat] in Hrest. rewrite <- Em in Hrest. fold (expected_comp metas skips) in Hrest.
+    set (E := expected_comp metas skips) in *. set (F := fuel_of_comp metas).
+    destruct b.
+    + destruct Hrest as [_ Hw].
+      pose proof (expected_comp_length metas 0 skips) as HL. fold (expected_comp metas skips) in HL. fold E in HL.
+      assert (F = length E + (F - length E))%nat as -> by (unfold F, fuel_of_comp; lia). apply Hw.
+    + destruct Hrest as [HE Hend]. exists c1. rewrite HE. split; [|exact HI].
+      unfold F, fuel_of_comp. cbn [walk]. change (k_op CI c1) with (ci_curr_op c1). unfold ci_curr_op. rewrite Hend. reflexivity.
+Qed.
+
+(* ------------------------------------------------------------------------------------------ *)
+(* C26, visiting half: the ComponentIterator script yields exactly the specified events *)
 
 Theorem ci_run_exact : forall metas skips k probe,
-  metas <> [] -> forallb wf_meta metas = true -> length skips = length metas ->
-  known_D12_comp metas skips probe = false -> known_D13 metas skips k = false ->
+  forallb wf_meta metas = true ->
   ci_run metas skips k probe = expected_trace (expected_comp metas skips) k probe.
 Proof.
-  intros metas skips k probe Hne Hwf Hlen H12 H13.
-  assert (exists mt0 rest, metas = mt0 :: rest) as (mt0 & rest & Em) by (destruct metas; [congruence|eauto]).
-  unfold known_D12_comp in H12. apply orb_false_iff in H12. destruct H12 as [H12 Hpr].
-  unfold known_D13 in H13. apply orb_false_iff in H13. destruct H13 as [H13 Hrs].
-  apply orb_false_iff in H13. destruct H13 as [H13 _].
-  assert (skipn 0 metas = mt0 :: rest) as Hsk by (cbn [skipn]; exact Em).
-  assert (d12_mod mt0 (nth 0 skips []) = false) as Hd0.
-  { rewrite Em, any_mod_cons in H12. apply orb_false_iff in H12. rewrite <- (skipn_hd_nth 0 skips []). cbn [skipn]. tauto. }
-  destruct (m_new_ok _ _ Hd0) as (idx & f & n & post & Hnew & _ & _).
-  set (E := expected_comp metas skips).
-  set (s0 := mkC 0 (length metas) (mkM idx mt0 (mkF 0 n) (nth 0 skips [])) metas skips).
-  assert (c_new metas skips = Ok s0) as Hcn.
-  { unfold c_new. replace (nth_error metas 0) with (Some mt0) by (rewrite Em; reflexivity). rewrite Hnew. reflexivity. }
-  set (F := fuel_of_comp metas).
-  assert (exists sf, walk CI F None s0 = (E, WEnd sf) /\ Fin metas skips sf) as (sf & Hw & Hfin).
-  { pose proof (expected_comp_length metas 0 skips) as HL. fold (expected_comp metas skips) in HL. fold E in HL.
-    assert (F = length E + (F - length E))%nat as HF by (unfold F, fuel_of_comp; lia).
-    pose proof H12 as H12'. pose proof H13 as H13'. pose proof Hwf as Hwf'. rewrite Em in H12', H13', Hwf'.
-    destruct (walk_modules metas skips rest 0 mt0 Hsk H12' H13' Hwf' _ Hnew (F - length E)) as (sf & X & Y).
-    cbn [skipn N.of_nat] in X. rewrite <- Em in X. fold (expected_comp metas skips) in X. fold E in X.
-    exists sf. rewrite HF. split; assumption. }
+  intros metas skips k probe Hwf.
+  destruct (top_walk metas skips Hwf) as (HI0 & sf & Hw & HIf).
+  set (E := expected_comp metas skips) in *. set (F := fuel_of_comp metas) in *. set (s0 := c_new metas skips) in *.
   assert (full CI F probe s0 = E ++ (if probe then [EAfter] else [])) as Hfull.
-  { unfold full. rewrite Hw. destruct probe; [|rewrite app_nil_r; reflexivity].
-    cbn [andb] in Hpr. destruct Hfin as [_ Hloc]. destruct (Hloc Hpr) as [v Hv]. change (k_loc CI sf) with (c_curr_loc sf). rewrite Hv. reflexivity. }
-  unfold ci_run, run. fold F. rewrite Hcn.
+  { unfold full. rewrite Hw. destruct probe; [reflexivity|rewrite app_nil_r; reflexivity]. }
+  unfold ci_run, run. fold F s0.
   destruct k as [k|]; [|exact Hfull].
   destruct (walk_lim CI F k s0 E sf Hw) as (w & Hwk & Hwok). rewrite Hwk.
-  assert (Inv metas skips s0) as HI0.
-  { repeat split; try reflexivity. exists 0%nat. split; [rewrite Em; cbn [length]; lia|reflexivity]. }
   pose proof (walk_inv CI (Inv metas skips) (ci_next_inv metas skips) F (Some k) s0 _ w HI0 Hwk) as HIw.
-  apply negb_false_iff in Hrs.
-  assert (forall s', Inv metas skips s' -> firstn (S k) E ++ match k_reset CI s' with
-            | Panic => [EReset; EPanic] | Ok s'' => EReset :: full CI F probe s'' end
-          = expected_trace E (Some k) probe) as Hgo.
-  { intros s' HI'. change (k_reset CI s') with (c_reset s').
-    rewrite (c_reset_new metas skips s' mt0 HI' ltac:(rewrite Em; reflexivity) Hrs Hlen Hd0), Hcn, Hfull.
+  assert (forall s', Inv metas skips s' -> firstn (S k) E ++ EReset :: full CI F probe (c_reset s') = expected_trace E (Some k) probe) as Hgo.
+  { intros s' HI'. rewrite (c_reset_is_new _ _ _ HI'). fold s0. rewrite Hfull.
     unfold expected_trace. rewrite <- app_assoc. reflexivity. }
-  destruct w as [| |s'|s']; try contradiction; specialize (Hgo s' HIw);
-    destruct (k_reset CI s'); exact Hgo.
+  destruct w as [| |s'|s']; try contradiction; exact (Hgo s' HIw).
 Qed.
 
 (* ------------------------------------------------------------------------------------------ *)
@@ -717,63 +658,65 @@ Qed.
 
 Section One.
   Variable mt : meta.
-  Variable sk : list (list N).
+  Variable skip : list N.
 
-  Definition wrap (j : nat) (ms : msub) : csub := mkC j 1 ms [mt] sk.
+  Definition wrap (j : nat) (ms : msub) : csub := mkC j 1 ms [mt] [skip].
+  Definition fine (ms : msub) : Prop := m_meta ms = mt /\ m_skip ms = skip.
+  (* the states in which a traversal may start: inside the module, or past it when it has nothing to visit *)
+  Definition live (j : nat) (ms : msub) : Prop :=
+    fine ms /\ ((j = 0%nat /\ m_is_empty ms = false) \/ (j = 1%nat /\ m_is_empty ms = true)).
+  Definition init_of (ms : msub) : csub := if m_is_empty ms then wrap 1 ms else wrap 0 ms.
 
-  Lemma one_op : forall ms, m_meta ms = mt -> ci_curr_op (wrap 0 ms) = mi_curr_op ms.
+  Lemma one_op : forall j ms, live j ms -> ci_curr_op (wrap j ms) = mi_curr_op ms.
   Proof.
-    intros ms Hm. unfold ci_curr_op, mi_curr_op, c_end, c_curr_loc, wrap. prj. cbn [Nat.eqb].
-    destruct (m_curr_loc ms) as [[[f i] e]|]; [|reflexivity]. cbn [nth_error]. rewrite Hm. reflexivity.
+    intros j ms [[Hm _] [[-> He]|[-> He]]]; unfold ci_curr_op, mi_curr_op, c_end, c_curr_loc, wrap; prj; rewrite He; cbn [Nat.eqb]; [|reflexivity].
+    destruct (m_curr_loc ms) as [[f i] e]. cbn [nth_error]. rewrite Hm. reflexivity.
   Qed.
 
-  Lemma one_loc : forall j ms, k_loc CI (wrap j ms) =
-    match k_loc MI ms with Ok (_, f, i, e) => Ok (N.of_nat j, f, i, e) | Panic => Panic end.
+  Lemma one_loc : forall j ms, exists f i e, k_loc MI ms = Ok (0, f, i, e) /\ k_loc CI (wrap j ms) = Ok (N.of_nat j, f, i, e).
   Proof.
-    intros. unfold CI, MI, c_curr_loc, wrap. prj. destruct (m_curr_loc ms) as [[[f i] e]|]; reflexivity.
+    intros. unfold CI, MI, c_curr_loc, wrap. prj. destruct (m_curr_loc ms) as [[f i] e]. exists f, i, e. auto.
   Qed.
 
-  Lemma one_next : forall ms, m_meta ms = mt ->
+  Lemma one_next : forall ms, live 0 ms ->
     match mi_next ms, ci_next (wrap 0 ms) with
     | Panic, Panic => True
-    | Ok (ms', b), Ok (cs', b') =>
-        b = b' /\ m_meta ms' = mt /\ exists j, cs' = wrap j ms' /\ (b = true -> j = 0%nat)
+    | Ok (ms', b), Ok (cs', b') => b = b' /\ fine ms' /\ exists j, cs' = wrap j ms' /\ (b = true -> j = 0%nat /\ live 0 ms')
     | _, _ => False
     end.
   Proof.
-    intros ms Hm. unfold mi_next, ci_next, c_next, wrap. prj.
-    destruct (m_has_next ms) eqn:Eh.
-    - destruct (m_next ms) as [[ms' b]|] eqn:En; [|exact I].
-      destruct (m_next_keeps _ _ _ En) as [Hk _]. rewrite Hm in Hk.
-      destruct b.
-      + change (mkC 0 1 ms' [mt] sk) with (wrap 0 ms'). rewrite (one_op _ Hk).
-        destruct (mi_curr_op ms'); [|exact I]. split; [reflexivity|]. split; [exact Hk|]. exists 0%nat. auto.
-      + split; [reflexivity|]. split; [exact Hk|]. exists 0%nat. split; [reflexivity|discriminate].
-    - unfold m_has_next in Eh. apply orb_false_iff in Eh. destruct Eh as [E1 E2].
-      unfold m_next, m_next_function. rewrite E1, E2. cbn [negb].
-      unfold c_next_module. prj. cbn [Nat.ltb Nat.leb].
-      split; [reflexivity|]. split; [exact Hm|]. exists 1%nat. split; [reflexivity|discriminate].
+    intros ms [[Hm Hs] [[_ He]|[H01 _]]]; [|discriminate].
+    unfold mi_next, ci_next, c_next, wrap. prj.
+    destruct (m_next ms) as [ms' b] eqn:En.
+    destruct (m_next_keeps _ _ _ En) as [Hk1 Hk2]. rewrite Hm in Hk1. rewrite Hs in Hk2.
+    pose proof (m_next_nonempty _ _ _ He En) as He'.
+    assert (live 0 ms') as Hlive by (split; [split; assumption|left; auto]).
+    destruct b.
+    - change (mkC 0 1 ms' [mt] [skip]) with (wrap 0 ms'). rewrite (one_op _ _ Hlive).
+      destruct (mi_curr_op ms'); [|exact I]. split; [reflexivity|]. split; [split; assumption|]. exists 0%nat. auto.
+    - unfold c_next_module. prj. cbn [Nat.leb Nat.ltb].
+      split; [reflexivity|]. split; [split; assumption|]. exists 1%nat. split; [reflexivity|discriminate].
   Qed.
 
   Definition wrel (w1 : wend msub) (w2 : wend csub) : Prop :=
     match w1, w2 with
     | WPanic, WPanic | WFuel, WFuel => True
-    | WStopped a, WStopped b | WEnd a, WEnd b => m_meta a = mt /\ exists j, b = wrap j a
+    | WStopped a, WStopped b | WEnd a, WEnd b => fine a /\ exists j, b = wrap j a
     | _, _ => False
     end.
 
-  Lemma one_walk : forall fuel lim ms, m_meta ms = mt ->
-    fst (walk MI fuel lim ms) = fst (walk CI fuel lim (wrap 0 ms))
-    /\ wrel (snd (walk MI fuel lim ms)) (snd (walk CI fuel lim (wrap 0 ms))).
+  Lemma one_walk : forall fuel lim j ms, live j ms ->
+    fst (walk MI fuel lim ms) = fst (walk CI fuel lim (wrap j ms))
+    /\ wrel (snd (walk MI fuel lim ms)) (snd (walk CI fuel lim (wrap j ms))).
   Proof.
-    induction fuel as [|fuel IH]; intros lim ms Hm; [cbn; auto|].
-    cbn [walk]. change (k_op CI (wrap 0 ms)) with (ci_curr_op (wrap 0 ms)). rewrite (one_op _ Hm).
+    induction fuel as [|fuel IH]; intros lim j ms Hl; [cbn; auto|].
+    cbn [walk]. change (k_op CI (wrap j ms)) with (ci_curr_op (wrap j ms)). rewrite (one_op _ _ Hl).
     change (k_op MI ms) with (mi_curr_op ms).
-    destruct (mi_curr_op ms) as [[|]|]; cbn [fst snd wrel]; auto.
-    2:{ split; [reflexivity|]. split; [exact Hm|]. exists 0%nat. reflexivity. }
-    rewrite one_loc. destruct (k_loc MI ms) as [[[[m f] i] e]|] eqn:El; cbn [fst snd wrel]; auto.
-    assert (m = 0) as -> by (unfold MI in El; prj; destruct (m_curr_loc ms) as [[[? ?] ?]|]; congruence).
-    cbn [N.of_nat].
+    destruct (mi_curr_op ms) as [[|]|] eqn:Eop; cbn [fst snd wrel]; auto.
+    2:{ split; [reflexivity|]. split; [exact (proj1 Hl)|]. exists j. reflexivity. }
+    assert (j = 0%nat) as ->.
+    { destruct Hl as [_ [[-> _]|[_ He]]]; [reflexivity|]. unfold mi_curr_op in Eop. rewrite He in Eop. discriminate. }
+    destruct (one_loc 0 ms) as (f & i & e & -> & ->). cbn [N.of_nat].
     assert (forall lim',
       fst (match k_next MI ms with
            | Ok (s', true) => let '(t, w) := walk MI fuel lim' s' in (ev_of (0, f, i, e) :: t, w)
@@ -791,58 +734,60 @@ Section One.
            | Ok (s', true) => let '(t, w) := walk CI fuel lim' s' in (ev_of (0, f, i, e) :: t, w)
            | Ok (s', false) => ([ev_of (0, f, i, e)], WEnd s')
            | Panic => ([ev_of (0, f, i, e); EPanic], WPanic) end))) as Hgo.
-    { intros lim'. pose proof (one_next ms Hm) as Hn.
+    { intros lim'. pose proof (one_next ms Hl) as Hn.
       change (k_next MI ms) with (mi_next ms). change (k_next CI (wrap 0 ms)) with (ci_next (wrap 0 ms)).
       destruct (mi_next ms) as [[ms' b]|]; destruct (ci_next (wrap 0 ms)) as [[cs' b']|]; try contradiction.
       2:{ cbn [fst snd wrel]. auto. }
-      destruct Hn as (<- & Hm' & j & -> & Hj). destruct b.
-      - rewrite (Hj eq_refl). destruct (IH lim' ms' Hm') as [H1 H2].
+      destruct Hn as (<- & Hf' & j & -> & Hj). destruct b.
+      - destruct (Hj eq_refl) as [-> Hj'].
+        destruct (IH lim' 0%nat ms' Hj') as [H1 H2].
         destruct (walk MI fuel lim' ms'), (walk CI fuel lim' (wrap 0 ms')). cbn [fst snd] in *. rewrite H1. auto.
-      - cbn [fst snd wrel]. split; [reflexivity|]. split; [exact Hm'|]. exists j. reflexivity. }
+      - cbn [fst snd wrel]. split; [reflexivity|]. split; [exact Hf'|]. exists j. reflexivity. }
     destruct lim as [[|k]|]; [|apply Hgo|apply Hgo].
-    cbn [fst snd wrel]. split; [reflexivity|]. split; [exact Hm|]. exists 0%nat. reflexivity.
+    cbn [fst snd wrel]. split; [reflexivity|]. split; [exact (proj1 Hl)|]. exists 0%nat. reflexivity.
   Qed.
 
-  Lemma m_reset_keeps : forall s s', m_reset s = Ok s' -> m_meta s' = m_meta s.
+  Lemma live_init : forall ms, fine ms -> exists j, init_of ms = wrap j ms /\ live j ms.
   Proof.
-    intros s s' H. unfold m_reset, handle_skips in H. prj. destruct (skipn 0 (m_meta s)); [discriminate|].
-    unfold get_curr_func in H. prj. match type of H with context [nth_error ?a ?b] => destruct (nth_error a b) as [[? ?]|] end; [|discriminate].
-    injection H; intros; subst. prj. reflexivity.
+    intros ms Hf. unfold init_of. destruct (m_is_empty ms) eqn:He.
+    - exists 1%nat. split; [reflexivity|]. split; [exact Hf|right; auto].
+    - exists 0%nat. split; [reflexivity|]. split; [exact Hf|left; auto].
   Qed.
 
-  Lemma one_reset : forall j ms, m_meta ms = mt ->
-    match k_reset MI ms, k_reset CI (wrap j ms) with
-    | Panic, Panic => True
-    | Ok a, Ok b => m_meta a = mt /\ b = wrap 0 a
-    | _, _ => False
-    end.
+  Lemma one_new : c_new [mt] [skip] = init_of (m_new mt skip).
   Proof.
-    intros j ms Hm. unfold CI, MI, c_reset, m_reset_from_comp, wrap. prj. cbn [nth_error].
-    replace (mkM (m_idx ms) mt (m_fi ms) (m_skip ms)) with ms by (destruct ms; prj; subst; reflexivity).
-    destruct (m_reset ms) as [a|] eqn:Er; [|exact I]. split; [|reflexivity].
-    rewrite (m_reset_keeps _ _ Er). exact Hm.
+    unfold c_new, c_skip_empty, c_enter, init_of. prj. cbn [nth length Nat.sub c_skip_empty_go]. prj.
+    destruct (m_is_empty (m_new mt skip)); [|reflexivity].
+    unfold c_next_module. prj. cbn [Nat.leb Nat.ltb fst]. reflexivity.
   Qed.
-
-  Lemma one_full : forall fuel probe ms, m_meta ms = mt -> full MI fuel probe ms = full CI fuel probe (wrap 0 ms).
+  Lemma one_reset : forall j ms, fine ms -> c_reset (wrap j ms) = init_of (m_reset ms).
   Proof.
-    intros fuel probe ms Hm. unfold full. destruct (one_walk fuel None ms Hm) as [H1 H2].
-    destruct (walk MI fuel None ms) as [t1 w1], (walk CI fuel None (wrap 0 ms)) as [t2 w2]. cbn [fst snd] in *. subst t2.
+    intros j ms [Hm Hs]. rewrite m_reset_is_new, Hm, Hs, <- one_new. reflexivity.
+  Qed.
+  Lemma fine_new : fine (m_new mt skip).
+  Proof. split; reflexivity. Qed.
+
+  Lemma one_full : forall fuel probe j ms, live j ms -> full MI fuel probe ms = full CI fuel probe (wrap j ms).
+  Proof.
+    intros fuel probe j ms Hl. unfold full. destruct (one_walk fuel None j ms Hl) as [H1 H2].
+    destruct (walk MI fuel None ms) as [t1 w1], (walk CI fuel None (wrap j ms)) as [t2 w2]. cbn [fst snd] in *. subst t2.
     destruct w1, w2; cbn [wrel] in H2; try contradiction; try reflexivity.
-    destruct H2 as (_ & j & ->). destruct probe; [|reflexivity].
-    rewrite one_loc. destruct (k_loc MI s) as [[[[? ?] ?] ?]|]; reflexivity.
   Qed.
 
-  Lemma one_run : forall fuel k probe init, match init with Ok ms => m_meta ms = mt | Panic => True end ->
-    run MI fuel k probe init
-    = run CI fuel k probe (match init with Ok ms => Ok (wrap 0 ms) | Panic => Panic end).
+  Lemma one_run : forall fuel k probe,
+    run MI fuel k probe (Ok (m_new mt skip)) = run CI fuel k probe (Ok (c_new [mt] [skip])).
   Proof.
-    intros fuel k probe [ms|] Hm; [|reflexivity]. unfold run. destruct k as [k|]; [|apply one_full; exact Hm].
-    destruct (one_walk fuel (Some k) ms Hm) as [H1 H2].
-    destruct (walk MI fuel (Some k) ms) as [t1 w1], (walk CI fuel (Some k) (wrap 0 ms)) as [t2 w2]. cbn [fst snd] in *. subst t2.
+    intros fuel k probe. rewrite one_new.
+    destruct (live_init _ fine_new) as (j0 & -> & Hl0). set (ms0 := m_new mt skip) in *.
+    unfold run. destruct k as [k|]; [|apply one_full; exact Hl0].
+    destruct (one_walk fuel (Some k) j0 ms0 Hl0) as [H1 H2].
+    destruct (walk MI fuel (Some k) ms0) as [t1 w1], (walk CI fuel (Some k) (wrap j0 ms0)) as [t2 w2]. cbn [fst snd] in *. subst t2.
     destruct w1 as [| |a|a], w2 as [| |b|b]; cbn [wrel] in H2; try contradiction; try reflexivity;
-      destruct H2 as (Ha & j & ->); pose proof (one_reset j a Ha) as Hr;
-      destruct (k_reset MI a) as [a'|], (k_reset CI (wrap j a)) as [b'|]; try contradiction; try reflexivity;
-      destruct Hr as [Ha' ->]; rewrite (one_full _ _ _ Ha'); reflexivity.
+      destruct H2 as (Ha & j & ->);
+      change (k_reset MI a) with (Ok (m_reset a)); change (k_reset CI (wrap j a)) with (Ok (c_reset (wrap j a)));
+      rewrite (one_reset j a Ha), m_reset_is_new, (proj1 Ha), (proj2 Ha);
+      destruct (live_init _ fine_new) as (j1 & -> & Hl1);
+      rewrite (one_full _ _ _ _ Hl1); reflexivity.
   Qed.
 End One.
 
@@ -850,31 +795,17 @@ Theorem mi_is_ci : forall mt skip k probe, mi_run mt skip k probe = ci_run [mt] 
 Proof.
   intros. unfold mi_run, ci_run.
   assert (fuel_of_comp [mt] = fuel_of mt) as -> by (unfold fuel_of_comp, fuel_of; cbn [fold_right]; rewrite N.add_0_r; reflexivity).
-  rewrite (one_run mt [skip]).
-  - f_equal.
-  - destruct (m_new mt skip) as [ms|] eqn:E; [|exact I]. apply (m_new_keeps _ _ _ E).
+  apply one_run.
 Qed.
 
-Lemma nlist_eqb_refl : forall l, nlist_eqb l l = true.
-Proof. induction l; cbn [nlist_eqb]; [reflexivity|rewrite N.eqb_refl; cbn [andb]; assumption]. Qed.
-
-(* C25: outside D12 the ModuleIterator script yields exactly the specified events *)
+(* C25: the ModuleIterator script yields exactly the specified events *)
 Theorem mi_run_exact : forall mt skip k probe,
-  wf_meta mt = true -> known_D12 mt skip probe = false ->
+  wf_meta mt = true ->
   mi_run mt skip k probe = expected_trace (expected_mod 0 mt skip) k probe.
 Proof.
-  intros mt skip k probe Hwf H12. rewrite mi_is_ci.
-  rewrite (ci_run_exact [mt] [skip] k probe).
+  intros mt skip k probe Hwf. rewrite mi_is_ci, (ci_run_exact [mt] [skip] k probe).
   - unfold expected_comp. cbn [expected_comp_from hd]. rewrite app_nil_r. reflexivity.
-  - discriminate.
   - cbn [forallb]. rewrite Hwf. reflexivity.
-  - reflexivity.
-  - unfold known_D12 in H12. unfold known_D12_comp. cbn [any_mod hd last length pred nth]. rewrite orb_false_r. exact H12.
-  - unfold known_D12 in H12. apply orb_false_iff in H12. destruct H12 as [H12 _].
-    unfold known_D13. cbn [any_nonlast any_mod hd orb forallb].
-    assert (nilb mt = false) as -> by (destruct mt; [discriminate|reflexivity]).
-    rewrite nlist_eqb_refl.
-    destruct k; reflexivity.
 Qed.
 
 (* ------------------------------------------------------------------------------------------ *)
@@ -897,107 +828,75 @@ Proof.
 Qed.
 
 Lemma concat_module_runs_expected : forall metas m skips,
-  forallb wf_meta metas = true -> any_mod d12_mod metas skips = false ->
-  concat_module_runs m metas skips = expected_comp_from m metas skips.
+  forallb wf_meta metas = true -> concat_module_runs m metas skips = expected_comp_from m metas skips.
 Proof.
-  induction metas as [|mt r IH]; intros m skips Hwf Hd; [reflexivity|].
+  induction metas as [|mt r IH]; intros m skips Hwf; [reflexivity|].
   cbn [forallb] in Hwf. apply andb_true_iff in Hwf. destruct Hwf as [Hwf Hwfs].
-  rewrite any_mod_cons in Hd. apply orb_false_iff in Hd. destruct Hd as [Hd Hds].
-  cbn [concat_module_runs expected_comp_from]. rewrite (IH _ _ Hwfs Hds).
-  rewrite (mi_run_exact mt (hd [] skips) None false Hwf) by (unfold known_D12; rewrite Hd; reflexivity).
+  cbn [concat_module_runs expected_comp_from]. rewrite (IH _ _ Hwfs), (mi_run_exact mt (hd [] skips) None false Hwf).
   unfold expected_trace. cbn [app]. rewrite app_nil_r, retag_expected. reflexivity.
 Qed.
 
 Theorem ci_run_as_module_runs : forall metas skips,
-  metas <> [] -> forallb wf_meta metas = true -> length skips = length metas ->
-  known_D12_comp metas skips false = false -> known_D13 metas skips None = false ->
+  forallb wf_meta metas = true ->
   ci_run metas skips None false = concat_module_runs 0 metas skips.
 Proof.
-  intros metas skips Hne Hwf Hlen H12 H13.
-  rewrite (ci_run_exact metas skips None false Hne Hwf Hlen H12 H13).
-  unfold known_D12_comp in H12. apply orb_false_iff in H12. destruct H12 as [H12 _].
-  rewrite (concat_module_runs_expected metas 0 skips Hwf H12).
+  intros metas skips Hwf. rewrite (ci_run_exact metas skips None false Hwf), (concat_module_runs_expected metas 0 skips Hwf).
   unfold expected_trace, expected_comp. cbn [app]. rewrite app_nil_r. reflexivity.
 Qed.
 
 (* ------------------------------------------------------------------------------------------ *)
-(* checker soundness: when the implementation's observed events agree with the model, the case is in
-   the domain and outside the known input classes, the property holds of the observed events *)
+(* checker soundness: when the implementation's observed events agree with the model and the case is in
+   the domain, the property holds of the observed events *)
 
-Theorem checker25_sound : forall c, agree25 c = true -> domain25 c = true -> known25 c = [] -> holds25 c = true.
+Theorem checker25_sound : forall c, agree25 c = true -> domain25 c = true -> holds25 c = true.
 Proof.
-  intros c Ha Hd Hk. unfold agree25 in Ha. apply evs_eqb_eq in Ha. unfold holds25. rewrite <- Ha.
-  unfold known25 in Hk. destruct (known_D12 (mc_meta c) (mc_skip c) (mc_probe c)) eqn:E; [discriminate|].
-  rewrite (mi_run_exact _ _ _ _ Hd E). apply evs_eqb_eq. reflexivity.
+  intros c Ha Hd. unfold agree25 in Ha. apply evs_eqb_eq in Ha. unfold holds25. rewrite <- Ha.
+  rewrite (mi_run_exact _ _ _ _ Hd). apply evs_eqb_eq. reflexivity.
 Qed.
 
-Theorem checker26_sound : forall c, agree26 c = true -> domain26 c = true -> known26 c = [] -> trace_ok26 c = true.
+Theorem checker26_sound : forall c, agree26 c = true -> domain26 c = true -> trace_ok26 c = true.
 Proof.
-  intros c Ha Hd Hk. unfold agree26 in Ha. apply evs_eqb_eq in Ha. unfold trace_ok26. rewrite <- Ha.
-  unfold known26 in Hk.
-  destruct (known_D12_comp (cc_metas c) (cc_skips c) (cc_probe c)) eqn:E12; [discriminate|].
-  destruct (known_D13 (cc_metas c) (cc_skips c) (cc_k c)) eqn:E13; [discriminate|].
-  unfold domain26 in Hd. apply andb_true_iff in Hd. destruct Hd as [Hd Hlen]. apply andb_true_iff in Hd. destruct Hd as [Hne Hwf].
-  apply Nat.eqb_eq in Hlen.
-  assert (cc_metas c <> []) as Hne' by (destruct (cc_metas c); [discriminate Hne|discriminate]).
-  rewrite (ci_run_exact _ _ _ _ Hne' Hwf Hlen E12 E13).
-  apply evs_eqb_eq. reflexivity.
+  intros c Ha Hd. unfold agree26 in Ha. apply evs_eqb_eq in Ha. unfold trace_ok26. rewrite <- Ha.
+  unfold domain26 in Hd. apply andb_true_iff in Hd. destruct Hd as [Hd _]. apply andb_true_iff in Hd. destruct Hd as [_ Hwf].
+  rewrite (ci_run_exact _ _ _ _ Hwf). apply evs_eqb_eq. reflexivity.
 Qed.
-Corollary checker26_sound_full : forall c, agree26 c = true -> domain26 c = true -> known26 c = [] ->
-  holds26 c = cc_inj_same c.
+Corollary checker26_sound_full : forall c, agree26 c = true -> domain26 c = true -> holds26 c = cc_inj_same c.
 Proof. intros. unfold holds26. rewrite (checker26_sound c) by assumption. reflexivity. Qed.
 
 (* ------------------------------------------------------------------------------------------ *)
-(* refutations: each shape of D12 / D13 makes the faithful model deviate from the specification *)
+(* the inputs that refuted C25 / C26 before the repair of D12 / D13 *)
 
-Ltac refute := let H := fresh "H" in intro H; vm_compute in H; discriminate H.
-
-(* D12: function 0 skipped -- function 1 (5 instructions) is walked with function 0's length (1) *)
-Lemma D12_first_skipped_refuted :
-  mi_run [(0, 1); (1, 5)] [0] None false <> expected_trace (expected_mod 0 [(0, 1); (1, 5)] [0]) None false.
-Proof. refute. Qed.
-(* D12: ... and when function 0 is the longer one, curr_op indexes past the end of function 1 *)
-Lemma D12_first_skipped_panics : mi_run [(1, 3); (2, 2)] [1] None false = [V 0 2 0 false true; V 0 2 1 false true; EPanic].
+(* function 0 skipped: function 1 is walked with its own length *)
+Example D12_first_skipped_now :
+  mi_run [(0, 1); (1, 5)] [0] None false
+  = [V 0 1 0 false true; V 0 1 1 false true; V 0 1 2 false true; V 0 1 3 false true; V 0 1 4 true true].
 Proof. vm_compute. reflexivity. Qed.
-(* D12: no local function *)
-Lemma D12_no_local_function_refuted : mi_run [] [] None false = [EPanic] /\ expected_trace (expected_mod 0 [] []) None false = [].
-Proof. vm_compute. auto. Qed.
-(* D12: every function skipped *)
-Lemma D12_all_skipped_refuted : mi_run [(0, 2)] [0] None false = [EPanic] /\ expected_trace (expected_mod 0 [(0, 2)] [0]) None false = [].
-Proof. vm_compute. auto. Qed.
-(* D12: trailing skipped function -- curr_loc() after the end of the traversal panics *)
-Lemma D12_trailing_skipped_refuted :
-  mi_run [(0, 2); (1, 1)] [1] None true = [V 0 0 0 false true; V 0 0 1 true true; EPanic].
+Example D12_first_skipped_longer_now : mi_run [(1, 3); (2, 2)] [1] None false = [V 0 2 0 false true; V 0 2 1 true true].
 Proof. vm_compute. reflexivity. Qed.
-(* the unconditional statement of C25 is false *)
-Theorem C25_unconditional_refuted :
-  ~ (forall mt skip k probe, wf_meta mt = true -> mi_run mt skip k probe = expected_trace (expected_mod 0 mt skip) k probe).
-Proof. intro H. exact (D12_first_skipped_refuted (H [(0, 1); (1, 5)] [0] None false eq_refl)). Qed.
-
-(* D13: the last function of module 0 is skipped -- module 1 is never visited *)
-Lemma D13_last_function_skipped_refuted :
-  ci_run [[(0, 1); (1, 1)]; [(0, 1)]] [[1]; []] None false = [V 0 0 0 true true]
-  /\ expected_trace (expected_comp [[(0, 1); (1, 1)]; [(0, 1)]] [[1]; []]) None false = [V 0 0 0 true true; V 1 0 0 true true].
-Proof. vm_compute. auto. Qed.
-(* D13: a module without local functions *)
-Lemma D13_module_without_functions_refuted :
-  ci_run [[(0, 1)]; []] [[]; []] None false = [V 0 0 0 true true; EPanic].
+(* no local function / every function skipped: the traversal is empty, reset and curr_loc do not panic *)
+Example D12_no_local_function_now : mi_run [] [] (Some 0%nat) true = [EReset; EAfter].
 Proof. vm_compute. reflexivity. Qed.
-(* D13: reset() keeps the skip list of the module the cursor was in *)
-Lemma D13_reset_refuted :
+Example D12_all_skipped_now : mi_run [(0, 2)] [0] (Some 0%nat) true = [EReset; EAfter].
+Proof. vm_compute. reflexivity. Qed.
+(* trailing skipped function: curr_loc() after the end stays on the last visited instruction *)
+Example D12_trailing_skipped_now :
+  mi_run [(0, 2); (1, 1)] [1] None true = [V 0 0 0 false true; V 0 0 1 true true; EAfter].
+Proof. vm_compute. reflexivity. Qed.
+(* the last function of module 0 skipped: module 1 is visited *)
+Example D13_last_function_skipped_now :
+  ci_run [[(0, 1); (1, 1)]; [(0, 1)]] [[1]; []] None false = [V 0 0 0 true true; V 1 0 0 true true].
+Proof. vm_compute. reflexivity. Qed.
+(* a module without local functions is stepped over (also as the first and as the last module) *)
+Example D13_module_without_functions_now :
+  ci_run [[(0, 1)]; []] [[]; []] None true = [V 0 0 0 true true; EAfter]
+  /\ ci_run [[]; [(0, 1)]; []; [(3, 1)]] [[]; []; []; []] None false = [V 1 0 0 true true; V 3 3 0 true true]
+  /\ ci_run [[]] [[]] (Some 2%nat) true = [EReset; EAfter].
+Proof. vm_compute. auto. Qed.
+(* reset() restores module 0's own skip list *)
+Example D13_reset_now :
   ci_run [[(0, 1); (1, 1)]; [(0, 1); (1, 1)]] [[]; [0]] (Some 9%nat) false
-  = [V 0 0 0 true true; V 0 1 0 true true; V 1 1 0 true true; EReset; V 0 1 0 true true; V 1 1 0 true true]
-  /\ expected_trace (expected_comp [[(0, 1); (1, 1)]; [(0, 1); (1, 1)]] [[]; [0]]) (Some 9%nat) false
   = [V 0 0 0 true true; V 0 1 0 true true; V 1 1 0 true true; EReset; V 0 0 0 true true; V 0 1 0 true true; V 1 1 0 true true].
-Proof. vm_compute. auto. Qed.
-Theorem C26_unconditional_refuted :
-  ~ (forall metas skips k probe, metas <> [] -> forallb wf_meta metas = true -> length skips = length metas ->
-       known_D12_comp metas skips probe = false ->
-       ci_run metas skips k probe = expected_trace (expected_comp metas skips) k probe).
-Proof.
-  intro H. specialize (H [[(0, 1); (1, 1)]; [(0, 1)]] [[1]; []] None false ltac:(discriminate) eq_refl eq_refl eq_refl).
-  vm_compute in H. discriminate H.
-Qed.
+Proof. vm_compute. reflexivity. Qed.
 
 (* ------------------------------------------------------------------------------------------ *)
 (* The specification says what the property says: [expected_mod] contains exactly the instructions of the
@@ -1063,3 +962,4 @@ Proof.
   fold (expected_mod m mt skip) in Hy. apply expected_mod_In in Hy. destruct Hy as (f' & n' & i' & Hin & _ & _ & ->).
   cbn [ev_lt]. left. rewrite Forall_forall in Hh. apply Hh. apply in_map_iff. exists (f', n'). auto.
 Qed.
+
